@@ -2315,7 +2315,10 @@ fn c07(rng: &mut Rng, thorough: bool, _hints: &[Vec<String>], rep: &mut Report) 
         let (dt2, sf, sp, p, off) = cfgs_ref[c as usize];
         // start time so that timestamps cross the i32 boundary during the run, aligned to 2^dt2
         let n = (1i64 << (sf - dt2 + 5)) + (1i64 << (sp - dt2 + 5));
-        let t0 = ((i32::MAX as i64) - (n / 2) * (1 << dt2) + (seeds_ref[c as usize] % 1000) as i64 * (1 << dt2)) & !((1i64 << dt2) - 1);
+        // half of the runs cross the boundary during acquisition, the other half 1000 updates after the stated
+        // settling time (inside the window in which the estimates must "stay there")
+        let cross = if c % 2 == 0 { n / 2 } else { n + 1000 };
+        let t0 = ((i32::MAX as i64) - cross * (1 << dt2) + (seeds_ref[c as usize] % 500) as i64 * (1 << dt2)) & !((1i64 << dt2) - 1);
         let inp = format!("RPLL::new({}) shift_frequency={} shift_phase={} period={} offset={} t0={}", dt2, sf, sp, p, off, t0);
         l.count += 1;
         match rpll_run(dt2, sf, sp, p, off, t0, 2000, None) {
@@ -2488,7 +2491,7 @@ fn c09(rng: &mut Rng, thorough: bool, _hints: &[Vec<String>], rep: &mut Report) 
         let w0 = std::f64::consts::TAU * f0;
         let typ = rng.below(9);
         let mut f = idsp::iir::Filter::<f64>::default();
-        f.critical_frequency(f0).gain(gain).shelf(shelf).set_shape(shape);
+        crate::gen::coeff_setup(rng, &mut f, w0, shape, gain, shelf);
         let ba = crate::gen::coeff_build(&f, typ);
         let names = ["lowpass", "highpass", "bandpass", "allpass", "notch", "peaking", "lowshelf", "highshelf", "iho"];
         let inp = format!("Filter f0={} shape={:?} gain={} shelf={} .{}()", f0, shape, gain, shelf, names[typ as usize]);
@@ -2556,7 +2559,7 @@ fn c09(rng: &mut Rng, thorough: bool, _hints: &[Vec<String>], rep: &mut Report) 
         if i % 4 == 0 {
             let k = if rng.chance(1, 2) { -1.0 } else { 0.5 + rng.below(100) as f64 / 10.0 };
             let mut f2 = idsp::iir::Filter::<f64>::default();
-            f2.critical_frequency(f0).gain(gain * k).shelf(shelf).set_shape(shape);
+            crate::gen::coeff_setup(rng, &mut f2, w0, shape, gain * k, shelf);
             let bb = crate::gen::coeff_build(&f2, typ);
             let poles_same = (0..3).all(|j| bb[1][j].to_bits() == ba[1][j].to_bits());
             let scaled = (0..3).all(|j| (bb[0][j] - k * ba[0][j]).abs() <= 1e-12 * (k * ba[0][j]).abs().max(numscale * k.abs() * 1e-3));
@@ -2668,6 +2671,29 @@ fn c11(rng: &mut Rng, thorough: bool, hints: &[Vec<String>], rep: &mut Report) {
         }
     }
     rep.count("lockin-iq-single-steps", n);
+    // mixer exactness (proved for the model): floor(sample * lo / 2^31) componentwise, on the sample lattice
+    let mix = |x: i32, lo: Complex<i32>, rep: &mut Report| {
+        let got = guard(|| lo.mul_scaled(x));
+        let want = (((x as i128 * lo.re as i128) >> 31) as i32, ((x as i128 * lo.im as i128) >> 31) as i32);
+        if got.map(|z| (z.re, z.im)) != Some(want) {
+            rep.violation("lockin-mixer", "mixer = floor(sample * lo / 2^31) componentwise, no overflow", &format!("Complex({}, {}).mul_scaled({}i32)", lo.re, lo.im, x), &format!("{:?}", want), &format!("{:?}", got));
+        }
+    };
+    for i in 0..n {
+        let x = match i % 4 { 0 => 1 << 30, 1 => -(1 << 30), 2 => ((1i64 << (23 + rng.below(8))) as i32).wrapping_mul(if rng.chance(1, 2) { 1 } else { -1 }), _ => rng.i32() };
+        let lo = Complex::<i32>::from_angle(rng.next() as i32);
+        mix(x, lo, rep);
+    }
+    for h in hints {
+        if h[0] == "cmul_i32" && h.len() == 4 {
+            if let (Ok(a), Ok(b), Ok(c)) = (h[1].parse::<i64>(), h[2].parse::<i64>(), h[3].parse::<i64>()) {
+                if !(a as i32 == i32::MIN && c as i32 == i32::MIN) && !(b as i32 == i32::MIN && c as i32 == i32::MIN) {
+                    mix(c as i32, Complex::new(a as i32, b as i32), rep);
+                }
+            }
+        }
+    }
+    rep.count("lockin-mixer-single-steps", n);
     rep.sample("Lockin A=2^23 k=2^21: angle error 3.8e-4 rad (listed small-amplitude finding)".into());
 }
 
